@@ -331,6 +331,9 @@ func (pf Profile) Gen(t *rapid.T) Scenario {
 		sc.Timeout5s = true
 	}
 	sc.SwapTypes = pct(t, 25, "swapTypes")
+	if pct(t, 4, "unusualPlanName") {
+		sc.NameKind = rng(t, 1, len(planNames)-1, "nameKind")
+	}
 	if pct(t, 20, "cancelStartCtx") {
 		sc.CancelStartUs = pick(t, []int{-1, 100, 1000, 5000}, "cancelStartUs")
 	}
@@ -378,7 +381,11 @@ func GenAPIHistory(t *rapid.T) APIHistory {
 	if pct(t, 15, "maxSubmit") {
 		h.MaxSubmitMs = pick(t, []int{1, 5}, "maxSubmitMs")
 		h.Stale = true
+	} else if pct(t, 5, "maxSubmitLate") {
+		// started in time; the epilogue's extra Start comes after the maximum has passed
+		h.MaxSubmitMs = 200
 	}
+	h.NoRecovery = pct(t, 30, "noRecovery")
 	for i := 0; i < np; i++ {
 		if pct(t, 85, "submitFirst") {
 			h.Ops = append(h.Ops, APIOp{Kind: OpSubmit, Plan: i})
